@@ -1010,8 +1010,7 @@ def turnover_specs(ctx):
 
 def turnover_fails(spec):
     """None, or the first observation that differs from the value the dropped-and-recreated object must have"""
-    import gc
-    from ecdsa import ellipticcurve as E, curves
+    from ecdsa import ellipticcurve as E, curves          # (reference counting frees a dropped object at once: no gc call)
     from ecdsa.keys import VerifyingKey
     p, a, b = spec["curve"]
     cv = (p, a % p, b % p)
@@ -1047,8 +1046,6 @@ def turnover_fails(spec):
                 del vk
         except Exception as e:                                    # noqa: BLE001 - any exception is a departure here
             return {"step": i, "object": str(Q), "op": spec["kind"], "got": type(e).__name__ + ": " + str(e)[:80], "want": "no exception"}
-        if i % 3 == 0:
-            gc.collect()
     return None
 
 
@@ -1078,17 +1075,23 @@ def search(ctx):
         dis = set(d["line"] for d in c.run())
     n = 0
     nviol = 0
+    nk1 = 0
     for (h, w, tag) in walks:
         n += 1
         if w.bad is None:
             continue
+        is_k1 = k1_structural(w, w.bad) and w.line() not in dis
+        if is_k1:
+            nk1 += 1
+            if nk1 > 2:                      # further instances of the known finding are counted, not shrunk again
+                continue
         small = shrink(h)
         w2 = Walk(small).run()
         bad = w2.bad or w.bad
         rec = {"input": small, "observed": {k: v for k, v in bad.items() if k != "why"}, "expected": bad["why"],
                "original_length": len(h["ops"]), "shrunk_length": len(small["ops"])}
         # K1 only if (a) the structural predicate holds and (b) the model agrees with the implementation on this history
-        if k1_structural(w, w.bad) and w.line() not in dis:
+        if is_k1:
             rec["known"] = "K1"
         else:
             if k1_domain(h):
@@ -1108,6 +1111,7 @@ def search(ctx):
             ctx.violation({"input": {"turnover": small}, "observed": bad,
                            "expected": "an object built after others were used and dropped has the value it was built with"})
             nviol += 1
+    ctx.hist("search", "K1-instances", nk1)
     ctx.hist("search", "histories", n)
     ctx.hist("search", "steps", sum(w.steps for (_, w, _) in walks))
     ctx.cov["search_evaluations"] = n
